@@ -1,0 +1,71 @@
+// Copyright 2017-2021 Lei Ni (nilei81@gmail.com) and other contributors.
+//
+// Licensed under the Apache License, Version 2.0 (the "License");
+// you may not use this file except in compliance with the License.
+// You may obtain a copy of the License at
+//
+//     http://www.apache.org/licenses/LICENSE-2.0
+//
+// Unless required by applicable law or agreed to in writing, software
+// distributed under the License is distributed on an "AS IS" BASIS,
+// WITHOUT WARRANTIES OR CONDITIONS OF ANY KIND, either express or implied.
+// See the License for the specific language governing permissions and
+// limitations under the License.
+
+//go:build verif
+
+package dragonboat
+
+import (
+	"github.com/lni/dragonboat/v4/internal/logdb"
+	"github.com/lni/dragonboat/v4/internal/rsm"
+	"github.com/lni/dragonboat/v4/internal/server"
+	"github.com/lni/dragonboat/v4/internal/vfs"
+	"github.com/lni/dragonboat/v4/raftio"
+	pb "github.com/lni/dragonboat/v4/raftpb"
+)
+
+// This file only exists under the verif build tag; it exports the unexported
+// snapshotter for external runtime monitors.
+
+// VerifSnapshotter wraps the real snapshotter.
+type VerifSnapshotter struct {
+	*snapshotter
+}
+
+var _ rsm.ISnapshotter = (*VerifSnapshotter)(nil)
+
+// NewVerifSnapshotter returns the real snapshotter used by nodes.
+func NewVerifSnapshotter(shardID uint64, replicaID uint64,
+	root server.SnapshotDirFunc, ldb raftio.ILogDB,
+	logReader *logdb.LogReader, fs vfs.IFS) *VerifSnapshotter {
+	return &VerifSnapshotter{
+		snapshotter: newSnapshotter(shardID, replicaID, root, ldb, logReader, fs),
+	}
+}
+
+// ProcessOrphans exposes processOrphans, the start-up cleanup.
+func (s *VerifSnapshotter) ProcessOrphans() error {
+	return s.processOrphans()
+}
+
+// RemoveFlagFile exposes removeFlagFile.
+func (s *VerifSnapshotter) RemoveFlagFile(index uint64) error {
+	return s.removeFlagFile(index)
+}
+
+// GetEnv exposes getEnv.
+func (s *VerifSnapshotter) GetEnv(index uint64) server.SSEnv {
+	return s.getEnv(index)
+}
+
+// SaveSnapshotRecord exposes saveSnapshot, which records the snapshot in the
+// log store.
+func (s *VerifSnapshotter) SaveSnapshotRecord(ss pb.Snapshot) error {
+	return s.saveSnapshot(ss)
+}
+
+// Dir returns the snapshot directory of the replica.
+func (s *VerifSnapshotter) Dir() string {
+	return s.dir
+}
